@@ -144,6 +144,9 @@ func c06addrBase(a ssa.Value) (base ssa.Value, viaIndex bool) {
 
 // c06copying: library functions whose result does not share memory with their arguments.
 var c06copying = map[string]bool{"slices.Clone": true, "bytes.Clone": true, "maps.Clone": true, "strings.Clone": true,
+	"bytes.ToUpper": true, "bytes.ToLower": true, "bytes.Repeat": true, "bytes.Join": true, "bytes.ReplaceAll": true, "bytes.Replace": true,
+	"bytes.Map": true, "bytes.ToValidUTF8": true, "io.ReadAll": true, "encoding/json.Marshal": true, "slices.Concat": true, "slices.Collect": true,
+	"slices.Sorted": true, "maps.Keys": true, "maps.Values": true, "strings.Split": true, "strings.Fields": true, "bytes.Runes": true,
 	"builtin.len": true, "builtin.cap": true, "builtin.copy": true, "builtin.min": true, "builtin.max": true}
 
 var c06mayReturnMemo = map[c06paramKey]int{} // 0 unknown, 1 in progress / no, 2 yes (one program at a time: reset by c06resetRound4)
@@ -736,7 +739,7 @@ var c06lastSA *sharedAnalysis
 // c06sharedFor: the shared-state analysis of the loaded program (computed once per program; only the latest is kept).
 func c06sharedFor(c *Ctx) *sharedAnalysis {
 	if c06lastSA == nil || c06lastSA.c != c {
-		c06lastSA = newSharedAnalysis(c)
+		c06lastSA = c06refineShared(newSharedAnalysis(c))
 	}
 	return c06lastSA
 }
@@ -764,6 +767,13 @@ func c06syncPoint(i ssa.Instruction) bool {
 // it runs inside sync.Once.Do, a synchronisation point (directly, or a helper that passes one on all of its paths)
 // dominates it in its function, or the same holds at every call site of its function on the request path.
 func c06orderedAt(sa *sharedAnalysis, at ssa.Instruction, depth int) bool {
+	return c06orderedAtIn(sa, at, map[*ssa.Function]bool{})
+}
+
+// (the call chain from the serving entry to the read has no fixed length: a lookup helper that is split once more, or
+// a loop body that became a callback, adds a level. onPath holds the functions whose call sites are being examined: a
+// recursive call site is ordered if the other ways into the cycle are.)
+func c06orderedAtIn(sa *sharedAnalysis, at ssa.Instruction, onPath map[*ssa.Function]bool) bool {
 	if len(c06heldAt(at, false)) > 0 || c06onceOnly(sa, at.Parent()) {
 		return true
 	}
@@ -778,20 +788,71 @@ func c06orderedAt(sa *sharedAnalysis, at ssa.Instruction, depth int) bool {
 	if found {
 		return true
 	}
-	if depth > 3 {
+	if onPath[f] {
+		return true
+	}
+	if len(onPath) > 24 {
 		return false
 	}
 	sites := sa.callers[f]
 	if len(sites) == 0 {
 		return false
 	}
+	onPath[f] = true
+	defer delete(onPath, f)
+	n := 0
 	for _, cs := range sites {
+		if cs.inst.Parent() == f {
+			continue // direct recursion
+		}
+		n++
 		// (a go statement counts like a call: what precedes it in the starting goroutine precedes the started one)
-		if !c06orderedAt(sa, cs.inst, depth+1) {
+		if !c06orderedAtIn(sa, cs.inst, onPath) {
 			return false
 		}
 	}
-	return true
+	return n > 0
+}
+
+// c06elementWrite: the store writes an element of a slice (reached through whatever field holds the slice), not a field:
+// `c.l[i] = x`. The slice header in the field stays as the constructor left it.
+func c06elementWrite(i ssa.Instruction) bool {
+	st, ok := i.(*ssa.Store)
+	if !ok {
+		return false
+	}
+	ia, ok := st.Addr.(*ssa.IndexAddr)
+	if !ok {
+		return false
+	}
+	_, isSlice := ia.X.Type().Underlying().(*types.Slice)
+	return isSlice
+}
+
+// c06onlyLenCap: the loaded slice is used for nothing but len() / cap().
+func c06onlyLenCap(v ssa.Value) bool {
+	if _, isSlice := v.Type().Underlying().(*types.Slice); !isSlice {
+		return false
+	}
+	refs := v.Referrers()
+	if refs == nil {
+		return false
+	}
+	n := 0
+	for _, r := range *refs {
+		if _, isDbg := r.(*ssa.DebugRef); isDbg {
+			continue
+		}
+		call, ok := r.(*ssa.Call)
+		if !ok {
+			return false
+		}
+		if nm := calleeName(&call.Call); nm != "builtin.len" && nm != "builtin.cap" {
+			return false
+		}
+		n++
+	}
+	return n > 0
 }
 
 // runC06S9. S1 accepts a store of the request path into an object shared between requests when it is synchronised
@@ -807,11 +868,23 @@ func runC06S9(c *Ctx) {
 	if c06syncWrites == nil {
 		c06s1(sa, "") // (not reached: S1 runs before the round-4 rules)
 	}
-	fields := map[string]c06syncWrite{}
+	type s9field struct {
+		c06syncWrite
+		throughOnly bool // every synchronised write goes THROUGH the field (an element of the slice it holds), none replaces it
+	}
+	fields := map[string]s9field{}
 	for _, w := range c06syncWrites {
-		if _, seen := fields[w.step]; !seen && !strings.HasSuffix(w.step, "]") {
-			fields[w.step] = w
+		if strings.HasSuffix(w.step, "]") {
+			continue
 		}
+		g, seen := fields[w.step]
+		if !seen {
+			g = s9field{w, true}
+		}
+		if !c06elementWrite(w.instr) {
+			g.throughOnly = false
+		}
+		fields[w.step] = g
 	}
 	nReads := 0
 	var fns []*ssa.Function
@@ -853,6 +926,11 @@ func runC06S9(c *Ctx) {
 				}
 			}
 			if allFresh {
+				return
+			}
+			if w.throughOnly && c06onlyLenCap(u) {
+				// the request path writes the ELEMENTS of the slice (under its lock) and never the field itself: the
+				// slice header - pointer, len, cap - is immutable after construction, and len/cap read nothing else
 				return
 			}
 			nReads++
